@@ -3,7 +3,10 @@ package main
 import (
 	"encoding/binary"
 	"fmt"
+	"io"
+	"runtime"
 	"strings"
+	"sync/atomic"
 	"time"
 
 	"github.com/nspcc-dev/neo-go/pkg/config"
@@ -11,6 +14,7 @@ import (
 	"github.com/nspcc-dev/neo-go/pkg/core/block"
 	"github.com/nspcc-dev/neo-go/pkg/core/storage"
 	"go.uber.org/zap"
+	"go.uber.org/zap/zapcore"
 
 	"verif/harness/internal/prng"
 )
@@ -19,12 +23,16 @@ import (
 // be written in case order.
 type caseOut struct {
 	replica string // backend kind of the reopened replicas ("" = memory)
-	k       int
-	lines   [][2]string // op, impl observation
-	fails   []failRec
-	cnt     counters
-	seen    []string
-	samp    []string
+	// contLimit != 0: a recovered node is only continued by this many blocks (long chains), except for
+	// every contFull-th prefix, which goes to the tip
+	contLimit uint32
+	contFull  int
+	k         int
+	lines     [][2]string // op, impl observation
+	fails     []failRec
+	cnt       counters
+	seen      []string
+	samp      []string
 }
 
 type failRec struct{ key, msg string }
@@ -41,7 +49,7 @@ func (c *caseOut) fail(key, f string, a ...any) {
 
 // Step of the subject node's schedule.
 type Step struct {
-	Kind string // "hdr" (headers up to H), "blk" (block H), "flush"
+	Kind string // "hdr" (headers up to H), "blk" (block H), "flush", "flushfail", "blkwait" (block H with a flush during its back-pressure wait)
 	H    uint32
 }
 
@@ -61,9 +69,16 @@ func genSchedule(r *prng.R, n uint32, pfMille int, headersAhead bool) []Step {
 			continue
 		}
 		p++
-		steps = append(steps, Step{"blk", p})
+		if len(steps) > 0 && steps[len(steps)-1].Kind == "blk" && r.Chance(1, 7) {
+			// the write cache holds at least the previous block: this AddBlock can be made to wait for a flush
+			steps = append(steps, Step{"blkwait", p})
+		} else {
+			steps = append(steps, Step{"blk", p})
+		}
 		if r.Intn(1000) < pfMille {
 			steps = append(steps, Step{"flush", 0})
+		} else if r.Chance(1, 12) {
+			steps = append(steps, Step{"flushfail", 0}) // a flush the backend refuses
 		}
 	}
 	return steps
@@ -78,12 +93,45 @@ func nodeConfig(h *History, base config.Blockchain, l Local) config.Blockchain {
 
 // openNode opens a node on a store; a panic of the real code is returned as an error.
 func openNode(st storage.Store, cfg config.Blockchain) (bc *core.Blockchain, err error) {
+	return openNodeLog(st, cfg, zap.NewNop())
+}
+
+func openNodeLog(st storage.Store, cfg config.Blockchain, log *zap.Logger) (bc *core.Blockchain, err error) {
 	defer func() {
 		if r := recover(); r != nil {
 			bc, err = nil, fmt.Errorf("panic: %v", r)
 		}
 	}()
-	return core.NewBlockchain(st, cfg, zap.NewNop())
+	return core.NewBlockchain(st, cfg, log)
+}
+
+// gcWatch follows the node's log to know when a garbage-collection run (tryRunGC, blockchain.go:1393-1428:
+// removeOldTransfers, stateroot GC, removeUntraceableBlocks, removeOldHeaderHashes) is in progress: the block
+// removal writes into the write cache only, so it cannot be seen on the recording store.
+type gcWatch struct {
+	started, finished atomic.Int32
+}
+
+func (w *gcWatch) logger() *zap.Logger {
+	core := zapcore.NewCore(zapcore.NewJSONEncoder(zapcore.EncoderConfig{}), zapcore.AddSync(io.Discard), zapcore.InfoLevel)
+	return zap.New(core, zap.Hooks(func(e zapcore.Entry) error {
+		switch e.Message {
+		case "starting transfer data garbage collection":
+			w.started.Add(1)
+		case "finished header hashes garbage collection", "failed to flush header hashes GC changeset":
+			w.finished.Add(1)
+		}
+		return nil
+	}))
+}
+
+// wait returns when no GC run is in progress (after giving a run that follows a flush time to start).
+func (w *gcWatch) wait() {
+	time.Sleep(40 * time.Millisecond)
+	deadline := time.Now().Add(20 * time.Second)
+	for w.started.Load() != w.finished.Load() && time.Now().Before(deadline) {
+		time.Sleep(5 * time.Millisecond)
+	}
 }
 
 func safeAddBlock(bc *core.Blockchain, b *block.Block) (err error) {
@@ -102,6 +150,10 @@ type subjectRun struct {
 	batchInfo []batchMeta // parallel to st.Batches()
 	lines     [][2]string
 	timerHit  bool
+	fails     []failRec // oracle failures seen while the subject was running
+	during    int       // blocks that arrived while a refused flush was in flight
+	waited    int       // AddBlocks that waited at the persist back-pressure and were released by a harness flush
+	notWaited int       // … that went through without waiting
 }
 
 // batchMeta: what the harness knows about the moment batch i was committed.
@@ -136,12 +188,13 @@ func pairsStr(ps [][2]int) string {
 // runSubject drives a node over history h following the schedule, recording every batch.
 // With l.Timer the flushes are left to the node's own timer (that is the only way GC runs).
 func runSubject(h *History, cfg config.Blockchain, l Local, steps []Step, backend string) (*subjectRun, error) {
-	inner, cleanup, err := newBackend(backend)
+	inner, probe, cleanup, err := newProbedBackend(backend)
 	if err != nil {
 		return nil, err
 	}
-	sr := &subjectRun{st: NewRecStore(inner), cleanup: cleanup}
-	bc, err := openNode(sr.st, cfg)
+	sr := &subjectRun{st: NewProbedRecStore(inner, probe), cleanup: cleanup}
+	var watch gcWatch
+	bc, err := openNodeLog(sr.st, cfg, watch.logger())
 	if err != nil {
 		return nil, fmt.Errorf("subject open: %w", err)
 	}
@@ -207,7 +260,7 @@ func runSubject(h *History, cfg config.Blockchain, l Local, steps []Step, backen
 				}
 				time.Sleep(5 * time.Millisecond)
 			}
-			time.Sleep(40 * time.Millisecond)
+			watch.wait()
 		} else if err := bc.VerifPersist(); err != nil {
 			sr.lines = append(sr.lines, [2]string{"flush", "err"})
 			return
@@ -231,7 +284,8 @@ func runSubject(h *History, cfg config.Blockchain, l Local, steps []Step, backen
 		}
 		gcPending = added > 0
 	}
-	for _, s := range steps {
+	skipBlk := uint32(0) // a block that was already added inside a refused flush
+	for si, s := range steps {
 		switch s.Kind {
 		case "hdr":
 			from := max(bc.HeaderHeight(), accepted) + 1
@@ -248,6 +302,9 @@ func runSubject(h *History, cfg config.Blockchain, l Local, steps []Step, backen
 			sr.lines = append(sr.lines, [2]string{fmt.Sprintf("hdr %d %d", from, s.H), "ok"})
 			stray("run")
 		case "blk":
+			if s.H == skipBlk {
+				continue
+			}
 			if err := safeAddBlock(bc, h.Blocks[s.H-1]); err != nil {
 				return nil, fmt.Errorf("subject AddBlock %d: %w", s.H, err)
 			}
@@ -255,13 +312,112 @@ func runSubject(h *History, cfg config.Blockchain, l Local, steps []Step, backen
 			inf := h.Info[s.H-1]
 			sr.lines = append(sr.lines, [2]string{fmt.Sprintf("blk %d %d %s", s.H, inf.NTx, pairsStr(inf.Pairs)), "ok"})
 			stray("run")
+		case "blkwait":
+			// AddBlock in its own goroutine; storeBlock is made to wait at the persist back-pressure
+			// (blockchain.go:2196-2203) and the flush it waits for is issued from here.
+			inf := h.Info[s.H-1]
+			blkLine := [2]string{fmt.Sprintf("blk %d %d %s", s.H, inf.NTx, pairsStr(inf.Pairs)), "ok"}
+			if l.Timer {
+				if err := safeAddBlock(bc, h.Blocks[s.H-1]); err != nil {
+					return nil, fmt.Errorf("subject AddBlock %d: %w", s.H, err)
+				}
+				accepted = s.H
+				sr.lines = append(sr.lines, blkLine)
+				stray("run")
+				continue
+			}
+			stray("run")
+			before := sr.st.NumBatches()
+			waiting, err := addBlockWaiting(bc, h.Blocks[s.H-1], func() error {
+				bc.VerifSetPersistVelocity(0)
+				return bc.VerifPersist()
+			})
+			bc.VerifSetPersistVelocity(0)
+			if err != nil {
+				return nil, fmt.Errorf("subject AddBlock %d (with a flush during its wait): %w", s.H, err)
+			}
+			var puts []*Batch
+			for _, b := range sr.st.Batches()[before:] {
+				if !b.GC {
+					puts = append(puts, b)
+				}
+			}
+			if waiting {
+				note("wait") // committed while block s.H was waiting inside storeBlock, not accepted yet
+			} else {
+				note("run")
+			}
+			accepted = s.H
+			switch {
+			case waiting && len(puts) == 1:
+				sr.waited++
+				sr.lines = append(sr.lines, [2]string{fmt.Sprintf("blkwait %d %d %s", s.H, inf.NTx, pairsStr(inf.Pairs)), abstractBatch(puts[0], srh)})
+			case !waiting && len(puts) == 0:
+				sr.notWaited++
+				sr.lines = append(sr.lines, blkLine)
+			default:
+				sr.timerHit = true // the node's own timer flushed around this block
+				sr.lines = append(sr.lines, blkLine)
+			}
 		case "flush":
 			flushLine()
+		case "flushfail":
+			// MemCachedStore.persist's error branch: the backend refuses the change set
+			if l.Timer {
+				continue
+			}
+			stray("run")
+			before, inj := sr.st.NumBatches(), sr.st.Injected()
+			// every other time the next block of the schedule arrives WHILE the change set is being written
+			// (persist has swapped the maps out and released the lock, memcached_store.go:404-414)
+			var during *block.Block
+			var duringErr error
+			if si+1 < len(steps) && steps[si+1].Kind == "blk" && (si+int(accepted))%2 == 0 {
+				during = h.Blocks[steps[si+1].H-1]
+			}
+			sr.st.FailNextWith(func() {
+				if during != nil {
+					duringErr = safeAddBlock(bc, during)
+				}
+			})
+			err := bc.VerifPersist()
+			if during != nil && sr.st.Injected() > inj {
+				if duringErr != nil {
+					return nil, fmt.Errorf("subject AddBlock %d during a refused flush: %w", during.Index, duringErr)
+				}
+				accepted = during.Index
+				skipBlk = during.Index
+				sr.during++
+				inf := h.Info[during.Index-1]
+				sr.lines = append(sr.lines, [2]string{fmt.Sprintf("blk %d %d %s", during.Index, inf.NTx, pairsStr(inf.Pairs)), "ok"})
+			}
+			delivered := sr.st.Injected() > inj
+			sr.st.DisarmFailure()
+			switch {
+			case sr.st.NumBatches() != before:
+				sr.timerHit = true // the node's own timer took the failure, this flush went through
+				note("run")
+				sr.lines = append(sr.lines, [2]string{"flushfail", "raced"})
+			case !delivered:
+				sr.lines = append(sr.lines, [2]string{"flushfail", "none"})
+			case err == nil:
+				sr.lines = append(sr.lines, [2]string{"flushfail", "ok"})
+				sr.fails = append(sr.fails, failRec{"failed-flush-reported-success", fmt.Sprintf("the backend refused the change set at height %d but persist returned nil", accepted)})
+			default:
+				sr.lines = append(sr.lines, [2]string{"flushfail", "err"})
+				// nothing may be lost: the node answers every read as before
+				got := observe(bc, h, accepted)
+				if int(accepted) < len(h.Ref) && !h.Ref[accepted].partial {
+					if d := h.Ref[accepted].diff(&got, nil); len(d) > 0 {
+						sr.fails = append(sr.fails, failRec{"failed-flush-lost-" + d[0], fmt.Sprintf("after a refused flush at height %d the node differs from the reference in %v: ref %q got %q", accepted, d, h.Ref[accepted].get(d[0]), got.get(d[0]))})
+					}
+				}
+			}
 		}
 	}
 	// a clean stop flushes what is left
 	if l.Timer {
-		time.Sleep(60 * time.Millisecond)
+		watch.wait()
 	}
 	gcLine()
 	stray("gc")
@@ -303,7 +459,7 @@ func checkPrefix(c *caseOut, h *History, cfg config.Blockchain, nb int, accepted
 	}
 	bc, err := openNode(st, cfg)
 	if err != nil {
-		c.fail(tag+"reopen", "prefix %d/%d: NewBlockchain failed: %v", k, nb, err)
+		c.fail(tag+"reopen"+gcPageShape(cfg, db, err), "prefix %d/%d: NewBlockchain failed: %v", k, nb, err)
 		return
 	}
 	go bc.Run()
@@ -312,6 +468,10 @@ func checkPrefix(c *caseOut, h *History, cfg config.Blockchain, nb int, accepted
 		bc.Close()
 	}()
 	hh := bc.BlockHeight()
+	tip := h.N()
+	if c.contLimit != 0 && (c.contFull == 0 || k%c.contFull != 0) {
+		tip = min(tip, hh+c.contLimit)
+	}
 	c.cnt.count(fmt.Sprintf("%srecovered:blocks-behind-tip-%s", tag, bucket(int(h.N())-int(hh))))
 	if hh > accepted {
 		c.fail(tag+"height-above-accepted", "prefix %d: recovered height %d > last accepted block %d", k, hh, accepted)
@@ -350,7 +510,7 @@ func checkPrefix(c *caseOut, h *History, cfg config.Blockchain, nb int, accepted
 		return
 	}
 	// continue with the remaining blocks
-	for i := hh + 1; i <= h.N(); i++ {
+	for i := hh + 1; i <= tip; i++ {
 		if err := safeAddBlock(bc, h.Blocks[i-1]); err != nil {
 			c.fail(tag+"continue-addblock", "prefix %d: recovered at %d, AddBlock(%d) failed: %v", k, hh, i, err)
 			return
@@ -361,25 +521,25 @@ func checkPrefix(c *caseOut, h *History, cfg config.Blockchain, nb int, accepted
 			return
 		}
 	}
-	if hh < h.N() {
-		got = observe(bc, h, h.N())
-		if d := h.Ref[h.N()].diff(&got, skip); len(d) > 0 {
-			c.fail(tag+"continue-"+d[0], "prefix %d: recovered at %d and continued to %d, differs from the reference in %v: ref %q got %q", k, hh, h.N(), d, h.Ref[h.N()].get(d[0]), got.get(d[0]))
+	if hh < tip {
+		got = observe(bc, h, tip)
+		if d := h.Ref[tip].diff(&got, skip); len(d) > 0 {
+			c.fail(tag+"continue-"+d[0], "prefix %d: recovered at %d and continued to %d, differs from the reference in %v: ref %q got %q", k, hh, tip, d, h.Ref[tip].get(d[0]), got.get(d[0]))
 			return
 		}
 		// a clean stop and one more restart of the continued node
 		bc.Close()
 		bc2, err := openNode(st, cfg)
 		if err != nil {
-			c.fail(tag+"second-reopen", "prefix %d: recovered at %d, continued to %d, stopped cleanly: the next NewBlockchain failed: %v", k, hh, h.N(), err)
+			c.fail(tag+"second-reopen"+gcPageShape(cfg, dumpStore(st), err), "prefix %d: recovered at %d, continued to %d, stopped cleanly: the next NewBlockchain failed: %v", k, hh, tip, err)
 			return
 		}
-		got = observe(bc2, h, h.N())
-		if d := h.Ref[h.N()].diff(&got, skip); len(d) > 0 {
-			c.fail(tag+"second-"+d[0], "prefix %d: recovered at %d, continued to %d, restarted: differs from the reference in %v", k, hh, h.N(), d)
+		got = observe(bc2, h, tip)
+		if d := h.Ref[tip].diff(&got, skip); len(d) > 0 {
+			c.fail(tag+"second-"+d[0], "prefix %d: recovered at %d, continued to %d, restarted: differs from the reference in %v", k, hh, tip, d)
 		}
-		if bc2.HeaderHeight() != h.N() {
-			c.fail(tag+"second-header-height", "prefix %d: after the second restart header height is %d, expected %d", k, bc2.HeaderHeight(), h.N())
+		if bc2.HeaderHeight() != tip {
+			c.fail(tag+"second-header-height", "prefix %d: after the second restart header height is %d, expected %d", k, bc2.HeaderHeight(), tip)
 		}
 	}
 }
@@ -396,5 +556,126 @@ func bucket(n int) string {
 		return "3-8"
 	default:
 		return "9+"
+	}
+}
+
+// checkSplits: on a persistent backend every recorded batch must have been exactly one committed backend
+// transaction (the commit counter of the database files is read around every call). For a call that
+// committed more than once, the database a power loss before its last commit leaves is rebuilt from the
+// files and goes through the crash oracle like any other crash point.
+func checkSplits(c *caseOut, h *History, cfg config.Blockchain, sr *subjectRun, runBatches int, target uint32, skip map[string]bool) {
+	if sr.st.probe == nil {
+		return
+	}
+	splits, checked := sr.st.Splits()
+	kind := sr.st.probe.kind()
+	c.cnt.add("probe:"+kind+"-batches-with-exactly-one-commit", checked)
+	nb := sr.st.NumBatches()
+	for _, s := range splits {
+		if s.probeErr != "" {
+			// the database files could not be read at that moment: this call stays unchecked (not a failure of the node)
+			c.cnt.count("probe:" + kind + "-read-error")
+			continue
+		}
+		c.cnt.count("probe:" + kind + "-split-batch")
+		c.fail("backend-batch-not-one-transaction-"+kind, "%s call for batch %d of %d on %s was committed as %d backend transactions instead of one (a power loss between them leaves a part of the batch)",
+			s.what, s.batch+1, nb, kind, s.commits)
+		if s.image == nil {
+			c.cnt.count("probe:" + kind + "-no-crash-image")
+			continue
+		}
+		c.cnt.count("probe:" + kind + "-crash-image")
+		if s.batch < runBatches && s.batch < len(sr.batchInfo) {
+			checkPrefix(c, h, cfg, nb, sr.batchInfo[s.batch].accepted, false, s.batch+1, s.image, skip, "torn-"+kind+"-")
+		} else {
+			// inside the reset: reopening must finish it
+			checkPrefix(c, h, cfg, nb, target, true, s.batch+1, s.image, skip, "torn-"+kind+"-reset-")
+		}
+	}
+}
+
+// gcPageShape recognises ONE shape of a failed restart and gives it its own key: the node runs with
+// RemoveUntraceableBlocks, HeaderHashes.init misses exactly the page below the stored header count
+// (headerhashes.go:86-91), and the database lacks that page AND every page below it - what
+// removeOldHeaderHashes (blockchain.go:1629-1659) leaves, not a single lost page.
+func gcPageShape(cfg config.Blockchain, db map[string][]byte, err error) string {
+	if !cfg.RemoveUntraceableBlocks || err == nil || !strings.Contains(err.Error(), "failed to retrieve header hash page") {
+		return ""
+	}
+	v, ok := db["\xc1"]
+	if !ok || len(v) < 36 {
+		return ""
+	}
+	hh := binary.LittleEndian.Uint32(v[32:36])
+	stored := (hh + 1) / 2000 * 2000
+	if stored < 2000 {
+		return ""
+	}
+	need := stored - 2000
+	for _, p := range headerPages(db) {
+		if p <= need {
+			return ""
+		}
+	}
+	return "-gc-removed-needed-header-page"
+}
+
+// goid returns the id of the calling goroutine.
+func goid() string {
+	buf := make([]byte, 64)
+	buf = buf[:runtime.Stack(buf, false)]
+	f := strings.Fields(string(buf))
+	if len(f) >= 2 {
+		return f[1]
+	}
+	return ""
+}
+
+// addBlockWaiting runs AddBlock(b) in its own goroutine with the persist velocity set to 1, so that storeBlock
+// waits at bc.persistCond when the write cache holds more than 4 keys. As soon as that goroutine is parked in
+// sync.Cond.Wait inside storeBlock, flush() is called from the calling goroutine. It reports whether the wait
+// was reached (AddBlock may also run through without waiting).
+func addBlockWaiting(bc *core.Blockchain, b *block.Block, flush func() error) (waited bool, err error) {
+	bc.VerifSetPersistVelocity(1)
+	done := make(chan error, 1)
+	idc := make(chan string, 1)
+	go func() {
+		idc <- goid()
+		done <- safeAddBlock(bc, b)
+	}()
+	id := <-idc
+	head := "goroutine " + id + " ["
+	buf := make([]byte, 1<<20)
+	deadline := time.Now().Add(5 * time.Second)
+	for {
+		select {
+		case err := <-done:
+			return false, err
+		case <-time.After(2 * time.Millisecond):
+		}
+		if time.Now().After(deadline) {
+			return false, <-done
+		}
+		n := runtime.Stack(buf, true)
+		if n == len(buf) {
+			buf = make([]byte, 2*len(buf))
+			continue
+		}
+		dump := string(buf[:n])
+		i := strings.Index(dump, head)
+		if i < 0 {
+			continue
+		}
+		blk := dump[i:]
+		if j := strings.Index(blk, "\n\n"); j >= 0 {
+			blk = blk[:j]
+		}
+		if strings.HasPrefix(blk[len(head):], "sync.Cond.Wait") && strings.Contains(blk, ").storeBlock(") {
+			if ferr := flush(); ferr != nil {
+				<-done
+				return true, ferr
+			}
+			return true, <-done
+		}
 	}
 }
